@@ -41,6 +41,36 @@ class Infra(Exception):
     """Infrastructure failure: exit 2, never a verdict."""
 
 
+class LibPanic(Infra):
+    """The harness process died from a panic raised inside pat-go (first non-runtime frame is library code).
+    For most properties this is still 'no verdict' (exit 2); C03 turns it into a violation."""
+
+    def __init__(self, msg, args, frame, stack):
+        Infra.__init__(self, msg)
+        self.harness_args, self.frame, self.stack = args, frame, stack
+
+
+def library_panic(stderr):
+    """(frame, stack) if stderr is a Go panic whose first non-runtime frame is in pat-go."""
+    i = stderr.find("panic: ")
+    if i < 0:
+        return None
+    j = stderr.find("goroutine ", i)
+    if j < 0:
+        return None
+    lines = stderr[j:].splitlines()[1:]
+    for k in range(0, len(lines) - 1, 2):
+        fn = lines[k].strip()
+        if not fn or fn.startswith("goroutine "):
+            break
+        if fn.startswith("panic(") or fn.startswith("runtime.") or fn.startswith("runtime/"):
+            continue
+        if fn.startswith("github.com/cloudflare/pat-go/"):
+            return fn.split("(")[0], stderr[i:i + 3000]
+        return None
+    return None
+
+
 class Ctx:
     def __init__(self, prop, tier, seed):
         self.prop = prop
@@ -65,12 +95,17 @@ class Ctx:
         return thorough if self.thorough else quick
 
     def log(self, *a):
-        print("[%s %6.1fs]" % (self.prop, time.time() - self.t0), *a, flush=True)
+        try:
+            print("[%s %6.1fs]" % (self.prop, time.time() - self.t0), *a, flush=True)
+        except BrokenPipeError:      # the reader went away (e.g. `| head`): progress lines are not worth dying for
+            pass
 
     # ------------------------------------------------------------------ go
     def env(self, extra=None):
         e = dict(os.environ)
         e.update(GOENV)
+        if os.environ.get("VERIF_COVER"):
+            e["GOCOVERDIR"] = os.environ["VERIF_COVER"]
         if extra:
             e.update(extra)
         return e
@@ -87,7 +122,11 @@ class Ctx:
                 s = open(p).read().replace("=> /repo", "=> " + REPO)
                 open(p, "w").write(s)
         out = os.path.join(self.scratch, "harness-race" if race else "harness")
-        cmd = ["go", "build", "-tags", "verif"] + (["-race"] if race else []) + ["-o", out, "."]
+        cmd = ["go", "build", "-tags", "verif"] + (["-race"] if race else [])
+        if os.environ.get("VERIF_COVER"):
+            # development aid (bin/coverage): which library statements do the drivers of this check reach
+            cmd += ["-cover", "-coverpkg=github.com/cloudflare/pat-go/..."]
+        cmd += ["-o", out, "."]
         r = subprocess.run(cmd, cwd=src, env=self.env(), capture_output=True, text=True)
         if r.returncode != 0:
             raise Infra("harness build failed (is /repo buildable with -tags verif?):\n" + r.stdout + r.stderr)
@@ -100,6 +139,10 @@ class Ctx:
         r = subprocess.run([b] + args, capture_output=True, text=True, timeout=timeout,
                            env=self.env(env), cwd=self.scratch)
         if check and r.returncode != 0:
+            lp = library_panic(r.stderr)
+            if lp:
+                raise LibPanic("harness %s died from a panic inside the library at %s:\n%s" % (" ".join(args), lp[0], lp[1]),
+                               args, lp[0], lp[1])
             raise Infra("harness %s failed (%d):\n%s%s" % (" ".join(args), r.returncode, r.stdout[-2000:], r.stderr[-4000:]))
         return r
 
@@ -133,6 +176,36 @@ class Ctx:
             shutil.rmtree(meta, True)
         out = r.stdout + r.stderr
         return {"cmd": " ".join(cmd), "out": out, "rc": r.returncode, "wall": time.time() - t, "dir": d}
+
+    def prove(self, module, timeout=900, threads=8):
+        """P: check the TLAPS proofs of a module with tlapm (from scratch, no fingerprint cache). The proofs are about
+        the specification only (unbounded versions of what TLC checks with small constants). They are supplementary:
+        back-end provers run under time limits, so a failed attempt is retried with longer limits, and a proof that
+        still does not go through is recorded in the evidence (`tlaps_proofs[].proved = false`) and logged - it is
+        neither a verdict about the code nor a reason to stop: TLC's bounded check of the same invariants follows."""
+        d = self._specdir("proof-" + module)
+        t = time.time()
+        out = ""
+        for attempt, stretch in enumerate(("1", "3", "8")):
+            shutil.rmtree(os.path.join(d, ".tlacache"), ignore_errors=True)
+            try:
+                r = subprocess.run(["tlapm", "--threads", str(threads), "--stretch", stretch, "--cleanfp", module + ".tla"],
+                                   cwd=d, capture_output=True, text=True, timeout=timeout)
+                out = r.stdout + r.stderr
+            except subprocess.TimeoutExpired:
+                out = "tlapm timed out after %ds" % timeout
+                continue
+            m = re.search(r"All (\d+) obligations? proved", out)
+            if r.returncode == 0 and m:
+                n = int(m.group(1))
+                self.log("tlapm %s: all %d obligations proved, %.1fs%s" % (module, n, time.time() - t, " (attempt %d)" % (attempt + 1) if attempt else ""))
+                self.proofs = getattr(self, "proofs", []) + [{"module": module, "obligations_proved": n, "proved": True}]
+                return n
+        where = re.findall(r"line \d+, character \d+ to line \d+, character \d+", out)[:3]
+        self.log("PROOF-UNAVAILABLE: tlapm did not prove every obligation of %s in three attempts (%s); continuing with TLC" % (module, "; ".join(where) or out[-300:].replace("\n", " ")))
+        self.proofs = getattr(self, "proofs", []) + [{"module": module, "obligations_proved": 0, "proved": False}]
+        self.notes.append("TLAPS proof of %s unavailable in this run" % module)
+        return 0
 
     def model_check(self, module, cfg=None, workers=None, timeout=1800, expect_violation=None):
         """Exhaustive TLC run of a specification-level configuration. A property
@@ -299,6 +372,31 @@ class Ctx:
                 self.violation(what, {"family": family, "trace_module": module, "cfg": cfg, "case": case,
                                       "event": trim(e), "failed_obligations": e["_why"], "extra": extra}, key=k)
             self.log("  re-executed %d rejected case(s) (of %d): %d confirmed" % (len(chosen), len(cids), len(seen)))
+            if not seen:
+                # nothing reproduces in isolation: the failure may depend on what the same library objects or package-level
+                # state did before. Run the whole family again in the same order; what is rejected both times is real-code
+                # behaviour reproduced twice, and its replay is the whole run.
+                f3 = self.record(family, shards=shards, extra=extra, env=env, parts=parts, tag="rerun")
+                n3, rej3 = self.validate(module, f3, timeout=timeout, cfg=cfg)
+                first = {(e["cid"], e["_why"]) for _, _, e in rejects}
+                again = [e for _, _, e in rej3 if (e["cid"], e["_why"]) in first]
+                done = set()
+                for e in again:
+                    if e["cid"] in done:
+                        continue
+                    done.add(e["cid"])
+                    case = cases[e["cid"]]
+                    what = (describe(e, case) if describe else "") or ("%s rejects recorded event: %s" % (module, e["_why"]))
+                    what += " [only in the context of the whole run: rejected in two complete runs, accepted when the case runs alone]"
+                    k = key(e, case) if key else "%s %s" % (family, e["_why"])
+                    self.violation(what, {"family": family, "trace_module": module, "cfg": cfg, "case": case, "whole_run": True,
+                                          "cid": e["cid"], "shards": shards, "parts": parts,
+                                          "event": trim(e), "failed_obligations": e["_why"], "extra": extra}, key=k)
+                self.log("  whole run repeated: %d of the rejected case(s) rejected again" % len(done))
+                if not done:
+                    self.log("  UNCONFIRMED: %d rejection(s) did not reproduce (alone or in a second complete run); not counted. "
+                             "Classes: %s" % (len(cids), sorted(byclass)[:6]))
+                    self.unconfirmed = getattr(self, "unconfirmed", 0) + len(cids)
         return n, files, cases
 
     def replay_case(self, path, family, module, cfg=None):
@@ -306,6 +404,28 @@ class Ctx:
         validate the fresh events."""
         obj = json.load(open(path))
         self.build_harness()
+        if obj.get("libpanic"):
+            try:
+                a = list(obj["harness_args"])
+                if "-out" in a:
+                    a[a.index("-out") + 1] = os.path.join(self.scratch, "replay.ndjson")
+                self.harness(a)
+            except LibPanic as e:
+                print("VIOLATION property=%s replay=%s" % (self.prop, path))
+                print("  the library still panics at " + e.frame)
+                return 1
+            print("the recorded driver run completes without a library panic on the current tree")
+            return 0
+        if obj.get("whole_run"):
+            f = self.record(family, shards=obj.get("shards"), extra=obj.get("extra"), parts=obj.get("parts") or 1, tag="replay")
+            n, rej = self.validate(module, f, cfg=obj.get("cfg") or cfg)
+            rej = [r for r in rej if r[2]["cid"] == obj["cid"]]
+            if rej:
+                print("VIOLATION property=%s replay=%s" % (self.prop, path))
+                print("  still rejected on the current tree (whole run): " + rej[0][2]["_why"])
+                return 1
+            print("the case is accepted in a whole run on the current tree (%d events)" % n)
+            return 0
         cpath = os.path.join(self.scratch, "replay-cases.ndjson")
         with open(cpath, "w") as fh:
             fh.write(json.dumps(obj["case"]) + "\n")
@@ -346,6 +466,10 @@ class Ctx:
         cov = {"states": states, "transitions": trans, "model_checking_runs": self.mc,
                "checker_cmd": " ; ".join(self.checker_cmds)}
         cov.update(coverage)
+        if getattr(self, "proofs", None):
+            cov["tlaps_proofs"] = self.proofs
+        if getattr(self, "unconfirmed", 0):
+            cov["unconfirmed_rejections"] = self.unconfirmed
         cov.setdefault("traces_validated_against_impl", 0)
         ev = {"property_id": self.prop, "tier": self.tier, "seed": self.seed, "level": level,
               "coverage": cov, "assumptions": assumptions, "wall_s": round(time.time() - self.t0, 1),
